@@ -202,7 +202,7 @@ func cmdReplay(args []string) {
 		tmp, _ := os.MkdirTemp("", "vcheck-replay-")
 		defer os.RemoveAll(tmp)
 		nat := &nativeSide{repo: *repo, verif: *verif, tmp: tmp, bins: map[string]string{}, errs: map[string]string{}}
-		nr, err := nat.runFile(rf.Package, rf.Harness, rpath)
+		nr, err := nat.runFile(rf.Package, rf.Harness, rpath, thorough)
 		if err != nil {
 			fmt.Println("native: failed to run:", err)
 		} else {
